@@ -7,6 +7,8 @@ R-C02.4  attribution by code identity (provenance of every value get_func can re
 R-C02.5  argument names and values (handle_call on a structured scenario)
 R-C02.6  the recorded return/yield type is get_type(arg) of the event's own value
 R-C02.7  event dispatch: handle_call only on 'call', handle_return only on 'return'
+R-C02.8  histories on one tracer object: a call records types inferred from its own values (no stale memo), every
+         yield reaches its own frame's trace
 """
 from __future__ import annotations
 
@@ -460,3 +462,7 @@ def run(ctx: Ctx, repo: Repo, tier: str) -> None:
     rule_arg_capture(ctx, repo)
     rule_no_overwrite(ctx, repo)
     rule_dispatch(ctx, repo)
+    from .memo_rules import tracer_no_memory
+    tracer_no_memory(ctx, repo, "R-C02.8")
+    from .memo_rules import infer_no_memory
+    infer_no_memory(ctx, repo, "R-C02.8")
